@@ -179,6 +179,7 @@ def run(ctx: core.Ctx):
                     got = ds["sgrid"].values[i, j]
                     if not np.array_equal(ds["band"].transpose("time", ...).values[:, i, j], np.asarray(b2)) or not (got == sg or (np.isnan(got) and np.isnan(sg))):
                         ctx.fail("whitswcv", dict(y=yy.tolist(), p=pp), dict(sgrid=float(got)), dict(sgrid=float(sg)))
+    core.acc_dispatch(ctx, ['whitswcv'])
     ctx.trusted += ["native model driver (Hdc/Model/Smooth.lean at Float)", "harness/props/c05.py oracle (GCV score recomputed with the compiled ws2d core)"]
 
 
